@@ -126,7 +126,7 @@ def collect(es, seen, index):
     return new
 
 
-def definitional(fresh, index):
+def definitional(fresh, index, unfold=True):
     """facts that follow from definitions alone, for the application terms that appeared in the previous round"""
     new = []
     p2all = index.get(('pow2', 1), [])
@@ -134,12 +134,12 @@ def definitional(fresh, index):
         nm = t.decl().name()
         if nm == 'pow2' and t.num_args() == 1:
             new += pow2_facts(t, p2all)
-        elif nm in DEFS:
+        elif nm in DEFS and unfold:
             decl, formals, body = DEFS[nm]
             if decl.eq(t.decl()):
                 new.append(t == z3.substitute(body, *[(f, t.arg(k)) for k, f in enumerate(formals)]))
         # division / remainder / product by a symbolic power of two that turns out to be 1 (exponent 0)
-        if nm in ('pdiv', 'pmod', 'pmul') and t.num_args() == 2 and not z3.is_int_value(t.arg(1)):
+        if not unfold and nm in ('pdiv', 'pmod', 'pmul') and t.num_args() == 2 and not z3.is_int_value(t.arg(1)):
             new.append(z3.Implies(t.arg(1) == 1, t == (z3.IntVal(0) if nm == 'pmod' else t.arg(0))))
         # x mod 2**k lies in [0, 2**k)
         if nm == 'pmod' and t.num_args() == 2 and z3.is_app(t.arg(1)) and t.arg(1).decl().name() == 'pow2':
@@ -199,10 +199,8 @@ def instantiate(quants, ground, rounds=None, max_inst=4000):
         fresh = collect(new, seen, index)
     else:
         # the terms of the last round still get their definitional facts (no further matching)
-        last = definitional(fresh, index)
+        last = definitional(fresh, index, unfold=False)
         insts += last
-        fresh2 = collect(last, seen, index)
-        insts += definitional(fresh2, index)
     return insts
 
 
